@@ -11,6 +11,7 @@ Property theorems only (lemmas: Lemmas/ParserRefine*.lean).
 -/
 import VaxisModel.Lemmas.ParserRefineRun
 import VaxisModel.Lemmas.ParserCodec
+import VaxisModel.Lemmas.ParserUtf8Spec
 import VaxisModel.Props.C02Text
 
 namespace VaxisModel.Props.C02Refine
@@ -84,6 +85,21 @@ theorem model_refines_spec_clean (cl : Nat → Nat) (chunks : List (List UInt8))
       (specItems Spec.VT500.Dev.none (decodeRunes (streamOf chunks))).map specSeq ++ [.eof] := by
   rw [model_refines_spec_partial cl chunks hR]
   simp only [specItems, Spec.VT500.runD, runFromD_eq devAll {} _ hA, runFromD_eq Spec.VT500.Dev.none {} _ hA]
+
+/-- **The model's UTF-8 decoding is the Spec's** (`Spec.VT500.decode`: Table 3-7 of the Unicode
+    standard, every byte that does not start a well-formed sequence delivered raw) — every byte list. -/
+theorem decoder_is_spec (bs : List Nat) : Spec.VT500.decode bs = decodeRunes bs :=
+  VaxisModel.Lemmas.ParserUtf8Spec.decode_eq bs
+
+/-- **The refinement theorem entirely in Spec terms**: bytes → `Spec.VT500.decode` → `Spec.VT500.runD`
+    — what the driver's oracle computes for every case of the correspondence run — equals what the
+    model of the code delivers, for every byte stream and every read splitting (same exclusions). -/
+theorem model_refines_spec_bytes (cl : Nat → Nat) (chunks : List (List UInt8))
+    (hR : Respects cl 0 (units (streamOf chunks))) :
+    noErr (flat (runChunks handTable cl (natChunks chunks))) =
+      (specItems devAll (Spec.VT500.decode (streamOf chunks))).map specSeq ++ [.eof] := by
+  rw [decoder_is_spec]
+  exact model_refines_spec_partial cl chunks hR
 
 /-- The full statement: the Spec proper (`Dev.none`), any oracle.  False of the code (F102, F102c,
     F102d: `Witness/F102.lean`). -/
